@@ -462,8 +462,10 @@ def run_fetch(case):
                 try:
                     cl = TCPGitClient("127.0.0.1", port=srv.port) if via == "tcp" else HttpGitClient("http://127.0.0.1:%d/" % srv.port)
                     order = rng.sample(heads, len(heads))
-                    for n in order[:3]:
-                        dpt = rng.choice([1, 2, 2, 3])
+                    for k_, n in enumerate(order[:3]):
+                        # later fetches sometimes ask for a window that reaches the roots (no new boundary, nothing unshallowed): the
+                        # server must still not count history below the receiver's existing boundary as present
+                        dpt = rng.choice([1, 2, 2, 3] + ([50, 50] if k_ else []))
 
                         def only(refs, depth=None, n=n):
                             return [refs[n]] if n in refs else []
